@@ -18,6 +18,7 @@ mod meta;
 mod encchar;
 mod label;
 mod memconv;
+mod specdec;
 mod util;
 mod valid;
 
@@ -38,6 +39,7 @@ const MODULES: &[(GenFn, ReplayFn)] = &[
     (oneshot::generate, oneshot::replay),
     (meta::generate, meta::replay),
     (cfgcorpus::generate, cfgcorpus::replay),
+    (specdec::generate, specdec::replay),
 ];
 
 fn main() {
